@@ -153,7 +153,7 @@ class Binding(object):
         soapbody = soapenv.getChild("Body", envns)
         if soapbody is None:
             soapbody = soapenv.getChild("Body", envns12)
-        soapbody = self.multiref.process(soapbody)
+        soapbody = MultiRef().process(soapbody)
         nodes = self.replycontent(method, soapbody)
         rtypes = self.returned_types(method)
         if len(rtypes) > 1:
